@@ -267,6 +267,8 @@ def gen_reads(rng, case, nframes, thorough):
         kv = [f"api={api}", f"filt={filt}", f"raw={1 if rng.random() < 0.35 else 0}"]
         if rng.random() < 0.25:
             kv.append("src=fp")
+        if rng.random() < 0.2:
+            kv.append("mv=1")
         if api == "loop":
             if rng.random() < 0.5:
                 kv.append(f"max={rng.choice([1, 2, 3, nframes, nframes + 1, rng.randint(1, max(1, nframes))])}")
@@ -465,6 +467,9 @@ def run(chk):
     for c in reg:
         c["tail"] = ["close", "read api=next filt=none raw=1", "read api=next filt=none raw=0",
                      "read api=loop filt=empty raw=0", "read api=iter filt=none raw=0 stop=1"]
+    reg.append(dict(tok="T:RadioTap", dlt=127, method="loop", filter="",
+                    frames=[("raw", 7, 7, bytes.fromhex("0000080000000000") + bytes(24))],
+                    tail=["rotate", "read api=next filt=none raw=1 mv=1"]))
     for tok, dlt in unsupported:
         reg.append(dict(tok=tok, dlt=dlt, method="loop", filter="", frames=[],
                         tail=["close", "read api=next filt=none raw=0"]))
@@ -510,7 +515,12 @@ def run(chk):
         "are cut, capture lengths above 262144 and short records end the file with an error",
         "a sniffing method returns >= 0 after delivering one frame or at the end of file, < 0 on error",
         "time stamps with seconds >= 2^31 or negative are outside the file format; their round trip is not demanded",
-        "Ethernet length/type values 1501..2047 and frames shorter than 14 bytes: the oracle accepts either dissector"]
+        "Ethernet length/type values 1501..2047 and frames shorter than 14 bytes: the oracle accepts either dissector",
+        "libpcap compiles some expressions differently for a savefile handle than for a pcap_open_dead handle (e.g. "
+        "`ip6` on DLT_NULL checks the BSD AF_INET6 values for a savefile, this host's value otherwise): the sniffer's "
+        "filter is compared with a program compiled on a savefile handle, OfflinePacketFilter with one compiled on a dead handle",
+        "PacketWriter move assignment / move construction and FileSniffer move construction are exercised by the "
+        "correspondence (rotate, mv=1) but have no Lean theorem"]
     chk.trusted += ["correspondence harness harness/c17_capture.cpp + generators in checks/C17.py",
                     "translator/gen_c17.py (preprocessor + regular expressions over src/sniffer.cpp and the writer headers)",
                     "g++ 12 / ASan+UBSan build of the repo's working tree; libpcap 1.10.3"]
